@@ -68,11 +68,12 @@ type GPair struct {
 	Owner   int      `json:"owner"`
 }
 
-// Op kinds: deploy destroy regcoin addcoin regerc20 toggle update convcoin converc20 enable genesis
+// Op kinds: deploy destroy supply regcoin addcoin regerc20 toggle update convcoin converc20 enable genesis
+// trace limiton limitoff (the three aggregate proposals that do not concern the registry: it must stay untouched)
 // Strings may contain symbolic references resolved at run time (see resolve): "@<i>" canonical text of the i-th
 // known address, "@<i>l" lower case, "@<i>n" lower case without 0x, "@<i>N" check-summed without 0x,
 // "@den<i>" CreateDenom, "@desc<i>" CreateDenomDescription, "@self" description of the address the module is
-// about to deploy.
+// about to deploy, "@evm" the EVM denomination of the running app (evm params EvmDenom).
 type Op struct {
 	K        string  `json:"k"`
 	Name     string  `json:"name,omitempty"`
@@ -132,6 +133,11 @@ type StepObs struct {
 	Ids       []string    `json:"ids"`              // GetTokenPairID(tok) hex ("" = nil) per tok
 	ME        [][3]int    `json:"me"`               // (token index, denom index, pair index) for which MintingEnabled succeeds
 	MEBadPair int         `json:"me_bad_pair"`      // MintingEnabled returned a pair that is not stored under its id
+	// ExportGenesis of the registry after the step: 0 = the exported genesis passes GenesisState.Validate and InitGenesis of
+	// it into an empty registry reproduces the three prefixes byte for byte; 1 = Validate refuses it; 2 = panic;
+	// 4 = the re-import differs; 5 = the exported pairs are not the raw contents of prefix 0x01 in key order
+	Export    int         `json:"export"`
+	ExportErr string      `json:"export_err,omitempty"`
 }
 
 type Result struct {
@@ -254,6 +260,9 @@ func (r *runner) resolve(s string) string {
 	}
 	if s == "@self" {
 		return aggtypes.CreateDenomDescription(r.moduleNext().String())
+	}
+	if s == "@evm" {
+		return r.e.a.EvmKeeper.GetParams(r.ctx).EvmDenom
 	}
 	body := s[1:]
 	kind := ""
@@ -558,6 +567,12 @@ func (r *runner) step(op Op) StepObs {
 		default:
 			write()
 		}
+	case "trace":
+		o.Class, o.Panic = r.gov(aggtypes.NewRegisterERC20TraceProposal("t", "d", c.A, "origin-token", "origin-chain", uint64(c.Decimals)))
+	case "limiton":
+		o.Class, o.Panic = r.gov(aggtypes.NewEnableTimeBasedSupplyLimitProposal("t", "d", c.A, "3600", "1000", "100", "1"))
+	case "limitoff":
+		o.Class, o.Panic = r.gov(aggtypes.NewDisableTimeBasedSupplyLimitProposal("t", "d", c.A))
 	case "genesis":
 		// bank metadata that the (separately validated) bank genesis carries for the imported denominations
 		for i := range c.Metas {
@@ -594,14 +609,13 @@ func (r *runner) step(op Op) StepObs {
 	return o
 }
 
-func (r *runner) observe(o *StepObs) {
+// dump reads the whole aggregate store of ctx by raw iteration
+func (r *runner) dump(ctx sdk.Context) (pairs []PairD, erc20, denom [][2]string, other int) {
 	a := r.e.a
-	k := a.AggregateKeeper
-	o.Enable = k.GetParams(r.ctx).EnableAggregate
-	store := r.ctx.KVStore(a.GetKey(aggtypes.StoreKey))
+	store := ctx.KVStore(a.GetKey(aggtypes.StoreKey))
 	it := store.Iterator(nil, nil)
-	o.Pairs, o.Erc20, o.Denom, o.Meta = []PairD{}, [][2]string{}, [][2]string{}, []MD{}
-	idIndex := map[string]int{}
+	defer it.Close()
+	pairs, erc20, denom = []PairD{}, [][2]string{}, [][2]string{}
 	for ; it.Valid(); it.Next() {
 		key, val := it.Key(), it.Value()
 		switch {
@@ -612,27 +626,98 @@ func (r *runner) observe(o *StepObs) {
 			if ds == nil {
 				ds = []string{}
 			}
-			idIndex[hex.EncodeToString(key[1:])] = len(o.Pairs)
-			o.Pairs = append(o.Pairs, PairD{ID: hex.EncodeToString(key[1:]), Text: tp.ERC20Address, Denoms: ds, Enabled: tp.Enabled, Owner: int(tp.ContractOwner)})
-			r.texts[tp.ERC20Address] = true
-			r.addTok(tp.ERC20Address)
-			if common.IsHexAddress(tp.ERC20Address) {
-				r.addAddr(common.HexToAddress(tp.ERC20Address))
-			}
-			for _, d := range ds {
-				r.dens[d] = true
-				r.addTok(d)
-			}
+			pairs = append(pairs, PairD{ID: hex.EncodeToString(key[1:]), Text: tp.ERC20Address, Denoms: ds, Enabled: tp.Enabled, Owner: int(tp.ContractOwner)})
 		case len(key) > 0 && key[0] == aggtypes.KeyPrefixTokenPairByERC20[0]:
-			o.Erc20 = append(o.Erc20, [2]string{hex.EncodeToString(key[1:]), hex.EncodeToString(val)})
+			erc20 = append(erc20, [2]string{hex.EncodeToString(key[1:]), hex.EncodeToString(val)})
 		case len(key) > 0 && key[0] == aggtypes.KeyPrefixTokenPairByDenom[0]:
-			o.Denom = append(o.Denom, [2]string{string(key[1:]), hex.EncodeToString(val)})
-			r.addTok(string(key[1:]))
+			denom = append(denom, [2]string{string(key[1:]), hex.EncodeToString(val)})
 		default:
-			o.Other++
+			other++
 		}
 	}
-	it.Close()
+	return
+}
+
+func samePair(a, b PairD) bool {
+	return a.ID == b.ID && a.Text == b.Text && a.Enabled == b.Enabled && a.Owner == b.Owner && strings.Join(a.Denoms, "\x00") == strings.Join(b.Denoms, "\x00") && len(a.Denoms) == len(b.Denoms)
+}
+
+// exportCheck: ExportGenesis of the current registry must validate and re-import (into the empty registry of the base
+// context) to exactly the same three prefixes
+func (r *runner) exportCheck(o *StepObs) {
+	a := r.e.a
+	var gs *aggtypes.GenesisState
+	if p, val := hlib.Catch(func() { gs = aggregate.ExportGenesis(r.ctx, *a.AggregateKeeper) }); p {
+		o.Export, o.ExportErr = 2, val
+		return
+	}
+	if len(gs.TokenPairs) != len(o.Pairs) {
+		o.Export = 5
+		return
+	}
+	for i, tp := range gs.TokenPairs {
+		ds := tp.Denoms
+		if ds == nil {
+			ds = []string{}
+		}
+		if !samePair(PairD{ID: o.Pairs[i].ID, Text: tp.ERC20Address, Denoms: ds, Enabled: tp.Enabled, Owner: int(tp.ContractOwner)}, o.Pairs[i]) {
+			o.Export = 5
+			return
+		}
+	}
+	var err error
+	if p, val := hlib.Catch(func() { err = gs.Validate() }); p {
+		o.Export, o.ExportErr = 2, val
+		return
+	}
+	if err != nil {
+		o.Export, o.ExportErr = 1, err.Error()
+		return
+	}
+	fresh, _ := r.e.base.CacheContext()
+	if p, val := hlib.Catch(func() { aggregate.InitGenesis(fresh, *a.AggregateKeeper, a.AccountKeeper, *gs) }); p {
+		o.Export, o.ExportErr = 2, val
+		return
+	}
+	pairs, erc20, denom, other := r.dump(fresh)
+	same := other == o.Other && len(pairs) == len(o.Pairs) && len(erc20) == len(o.Erc20) && len(denom) == len(o.Denom)
+	for i := 0; same && i < len(pairs); i++ {
+		same = samePair(pairs[i], o.Pairs[i])
+	}
+	for i := 0; same && i < len(erc20); i++ {
+		same = erc20[i] == o.Erc20[i]
+	}
+	for i := 0; same && i < len(denom); i++ {
+		same = denom[i] == o.Denom[i]
+	}
+	if !same {
+		o.Export = 4
+	}
+}
+
+func (r *runner) observe(o *StepObs) {
+	a := r.e.a
+	k := a.AggregateKeeper
+	o.Enable = k.GetParams(r.ctx).EnableAggregate
+	o.Meta = []MD{}
+	idIndex := map[string]int{}
+	o.Pairs, o.Erc20, o.Denom, o.Other = r.dump(r.ctx)
+	for i, pd := range o.Pairs {
+		idIndex[pd.ID] = i
+		r.texts[pd.Text] = true
+		r.addTok(pd.Text)
+		if common.IsHexAddress(pd.Text) {
+			r.addAddr(common.HexToAddress(pd.Text))
+		}
+		for _, d := range pd.Denoms {
+			r.dens[d] = true
+			r.addTok(d)
+		}
+	}
+	for _, kv := range o.Denom {
+		r.addTok(kv[0])
+	}
+	r.exportCheck(o)
 	a.BankKeeper.IterateAllDenomMetaData(r.ctx, func(m banktypes.Metadata) bool {
 		o.Meta = append(o.Meta, fromBank(m))
 		return false
